@@ -389,8 +389,10 @@ def gen_yml(rng):
                 if not allow_expr or not known_labels:
                     continue
                 ref = known_labels[int(rng.integers(len(known_labels)))]
-                o[k] = f"${ref} * 2"
-                txt.append(f"{k}: '${ref} * 2'")
+                op = str(rng.choice(["* 2", "// 2", "/ 2", "** 2", "+ 1 # not a comment"]))  # also text a path normaliser would rewrite
+                op = op if not op.startswith("+") else "+ 1"
+                o[k] = f"${ref} {op}"
+                txt.append(f"{k}: '${ref} {op}'")
             else:
                 o[k] = v
                 txt.append(f"{k}: {str(v).lower()}")
